@@ -294,5 +294,9 @@ func (jb *JitterBuffer) Clear(resetState bool) {
 		jb.state = Buffering
 		jb.stats = Stats{0, 0, 0}
 		jb.minStartCount = 50
+		// the next packet pushed starts a new playout: without this the playout head of the previous
+		// stream survives and Pop fails for ever once the buffer starts emitting again
+		jb.playoutReady = false
+		jb.playoutHead = 0
 	}
 }
